@@ -275,6 +275,7 @@ def oracle(tag, a):
 
 def rule_occurrence(ck, F, X):
     CE = og.CallExpander(F)
+    CEM = og.CallExpander(F, general_matches=True)
     live = scans.api_reachable(F.lib)
     sites = [s for s in og.field_summaries(F, "model::field::Field") if "try_from_node" in s[0] and s[0] in live]
     ck.floor("R2", "Field constructor sites", len(sites), 2)
@@ -329,6 +330,8 @@ def rule_occurrence(ck, F, X):
         if label == "ref" and any("starts_with" in og.nf_str(c[1]) and c[2] for c in ctx if c[0] == "alt"):
             label = "xml-ref"
         flags = {k: CE.expand(fields[k]) for k in ("is_vec", "is_optional", "is_attribute") if k in fields}
+        # helpers that decide with a general `match` (a parsed value against its variants) are taken in as well: they are evaluated
+        flags = {k: CEM.expand(v) for k, v in flags.items()}
         if len(flags) != 3:
             ck.undecided("R2", f"{label}:flags", site, "constructor site without explicit occurrence flags")
             continue
